@@ -1,5 +1,5 @@
 #!/bin/bash
-# usage: try_seeded.sh <seeded-dir> [check args]   (seeded-dir holds patch.diff and demo.py)
+# usage: [TIER=thorough] try_seeded.sh <seeded-dir> [check args]   (seeded-dir holds patch.diff and demo.py)
 # 1. confirm in a scratch worktree: tests still pass with the patch, demo fails with / passes without
 # 2. run the check against that worktree with the patch applied (VERIF_REPO=<worktree>; same effect as
 #    `git -C /repo apply` + check + `git -C /repo checkout -- .` but cannot disturb anything else that
@@ -11,16 +11,16 @@ git -C /repo worktree add -q --detach $WT HEAD || exit 2
 cd $WT
 git apply $D/patch.diff || { echo "PATCH DOES NOT APPLY"; cd /; git -C /repo worktree remove --force $WT; exit 2; }
 T=$(/venv/bin/python -m pytest -q -p no:cacheprovider tests 2>&1 | tail -1); echo "tests with patch: $T"
-mkdir -p _out; cp $D/demo.py _out/demo.py; sed -i "s#/tmp/wt-[a-z0-9]*-[0-9]*#$WT#g" _out/demo.py
+mkdir -p _out; cp $D/demo.py _out/demo.py; sed -i "s#/tmp/wt-[a-z0-9-]*#$WT#g" _out/demo.py
 /venv/bin/python _out/demo.py >/dev/null 2>&1; echo "demo with patch rc=$?"
 git apply -R $D/patch.diff
 /venv/bin/python _out/demo.py >/dev/null 2>&1; echo "demo without patch rc=$?"
 git apply $D/patch.diff; rm -rf _out
 cd /verif
 OUT=$(mktemp -d /var/tmp/seeded-out-XXXX)
-VERIF_REPO=$WT VERIF_OUT_DIR=$OUT /verif/check quick "$@" > $OUT/log 2>&1; RC=$?
+VERIF_REPO=$WT VERIF_OUT_DIR=$OUT /verif/check ${TIER:-quick} "$@" > $OUT/log 2>&1; RC=$?
 git -C /repo worktree remove --force $WT
 echo "check rc=$RC"; grep -c "^VIOLATION" $OUT/log; grep "^  O" $OUT/log | cut -c1-150 | sort | uniq -c | sort -rn | head -8; tail -2 $OUT/log
-mkdir -p $D/check-output; cp $OUT/log $D/check-output/quick.log
+mkdir -p $D/check-output; cp $OUT/log $D/check-output/${TIER:-quick}.log
 F=$(ls $OUT/replays/*.json 2>/dev/null | head -1); [ -n "$F" ] && cp $F $D/check-output/
 rm -rf $OUT
